@@ -47,6 +47,13 @@ def stepCodec (toks : List String) : Option String :=
     let bytes := Moc.Fits.rangeFile q w d rs
     let h := bytes.foldl (fun h b => ((h ^^^ b) * 1099511628211) % 2 ^ 64) 14695981039346656037
     pure s!"{bytes.length}:{h}"
+  | ["fits_nuniq_file", w, d, rs] => do
+    -- the WHOLE NUNIQ file of the S-MOC: the NUNIQ numbers of the normal-form cells, ascending
+    let w ← w.toNat?; let d ← d.toNat?; let rs ← parseRngs rs
+    let uniqs := ((cellsOf Params.hpx w d rs).map fun c => uniqHpx c.1 c.2).mergeSort
+    let bytes := Moc.Fits.nuniqFile w d uniqs
+    let h := bytes.foldl (fun h b => ((h ^^^ b) * 1099511628211) % 2 ^ 64) 14695981039346656037
+    pure s!"{bytes.length}:{h}"
   | ["fits_payload", w, rs] => do
     let w ← w.toNat?; let rs ← parseRngs rs
     let bytes := (encodeWords rs).flatMap (toBE (w / 8))
